@@ -2,6 +2,7 @@ package types
 
 import (
 	"strconv"
+	"sync/atomic"
 
 	"github.com/goghcrow/yae/util"
 )
@@ -9,10 +10,11 @@ import (
 // TyVar 新建 Type Variable
 // 📢 每次调用都生成全局唯一类型变量
 var TyVar = func() func(name string) *Type {
-	n := 0
+	var n int64
 	return func(name string) *Type {
-		n++
-		t := TypeVariable{Type{KTyVar}, name + strconv.Itoa(n)}
+		// 并发编译时也要保证唯一 (每个 Expr 实例的类型检查都会生成类型变量)
+		i := atomic.AddInt64(&n, 1)
+		t := TypeVariable{Type{KTyVar}, name + strconv.FormatInt(i, 10)}
 		return &t.Type
 	}
 }()
